@@ -218,6 +218,51 @@ Definition merged_extents (exts : list (list Z)) : list Z :=
 Definition pmerge {V : Type} (zero : V) (exts : list (list Z)) (is_point : bool) (piece_fields : list (list V)) : list V :=
   smerge zero (merger_decomposition exts) is_point (fun loc => nth (domain_id exts loc) piece_fields []).
 
+(* ---- PVTRReader._make_structured_mesh (_pvtk_readers.py :217-239): ordinates of the merged rectilinear grid ---------- *)
+(* numpy `a[off : off + n] = vals` (the slice is cut at the end of the array; a length mismatch raises unless n = 1) *)
+Definition write_slice (l : qvec) (off : nat) (vals : qvec) : option qvec :=
+  let n := length vals in
+  let m := Nat.min n (length l - off) in
+  if m =? n then Some (firstn off l ++ vals ++ skipn (off + n) l)
+  else if n =? 1 then Some (firstn off l ++ repeat (nth 0 vals 0%Q) m ++ skipn (off + m) l)
+  else None.
+
+(* location of the i-th piece along `direction` (:229).  Pinned: `tuple(i if k == direction else 0 for k in
+   range(decomposition.dimension()))` compares a POSITION k among the meshed directions with the space DIRECTION — right
+   only when the meshed directions are a prefix of (x, y, z) (finding F-C06c).  Repaired: compare directions. *)
+Definition pvtr_location (repaired : bool) (meshed : list nat) (direction i : nat) : list nat :=
+  if repaired then map (fun d => if d =? direction then i else 0) meshed
+  else map (fun k => if k =? direction then i else 0) (seq 0 (length meshed)).
+
+(* piece_ords: for every listed piece its three ordinate vectors.  Directions that are not meshed keep the zeros(1) they
+   were initialised with (:225) in the pinned code (finding F-C06e: the coordinate of a flat direction is lost); the repaired
+   code takes them from the first piece. *)
+Definition pvtr_ordinates (fix_c fix_e : bool) (exts : list (list Z)) (piece_ords : list (list qvec)) : option (list qvec) :=
+  let sizes := sizes_along_axis exts in
+  let meshed := meshed_dirs sizes in
+  let mext := merged_extents exts in
+  let one (d : nat) : option qvec :=
+    if existsb (Nat.eqb d) meshed then
+      fst (fold_left (fun (st : option qvec * nat) i =>
+                        match fst st with
+                        | None => st
+                        | Some acc =>
+                            let po := nth d (nth (domain_id exts (pvtr_location fix_c meshed d i)) piece_ords []) [] in
+                            (write_slice acc (snd st) po, snd st + (length po - 1))
+                        end)
+                     (seq 0 (length (nth d sizes [])))
+                     (Some (repeat 0%Q (Z.to_nat (nth d mext 0%Z) + 1)), 0))
+    else if fix_e then Some (nth d (nth 0 piece_ords []) [])
+    else Some (repeat 0%Q (Z.to_nat (nth d mext 0%Z) + 1)) in
+  match one 0, one 1, one 2 with
+  | Some x, Some y, Some z => Some [x; y; z]
+  | _, _, _ => None
+  end.
+
+(* _merge_cell_fields (_pvtk_readers.py :133-136) asserts that the cell fields of the pieces name exactly one cell type: a
+   parallel structured file WITHOUT cell data cannot be read by the pinned code (finding F-C06d) *)
+Definition pstructured_readable (repaired : bool) (n_cell_fields : nat) : bool := repaired || (0 <? n_cell_fields).
+
 (* ---- the cell-type -> cell-index map of the structured readers ---------------------------------- *)
 (* .vti/.vtr key the map by the mesh's own cell type; .vts keys it by the literal QUAD (_vts_reader.py :33-35).
    The lookup `index_map[cell_type] for cell_type in mesh.cell_types` (_xml_reader.py :87) succeeds iff the key is
